@@ -1,0 +1,37 @@
+//go:build verif
+
+package rewriter
+
+import (
+	"fmt"
+	"log"
+	"path/filepath"
+	"strings"
+
+	"github.com/goghcrow/go-ast-matcher"
+	"github.com/goghcrow/go-loader"
+	"github.com/goghcrow/go-matcher"
+)
+
+// VerifRewriteOnly is a verification hook (build tag verif only): it runs exactly the rewrite
+// stage of Compile - the unoptimised intermediate code that Compile writes to <dst>_tmp and
+// deletes - into dstDir and stops, so the optimised output can be compared against it.
+func VerifRewriteOnly(srcDir, dstDir string, opts ...loader.Option) {
+	srcDir, err := filepath.Abs(srcDir)
+	panicIf(err)
+
+	dstDir = mustMkDir(dstDir)
+
+	resetLog()
+	log.SetPrefix("[rewrite] ")
+	r := mkRewriter(astmatcher.New(
+		loader.MustNew(srcDir, append(opts, loader.WithLoadDepts())...),
+		matcher.New(),
+	))
+
+	comment := fmt.Sprintf(fileComment, defaultBuildTag)
+	r.rewriteAllFiles(func(filename string, f *loader.File) {
+		filename = strings.ReplaceAll(filename, srcDir, dstDir)
+		f.WriteWithComment(filename, comment)
+	})
+}
